@@ -68,6 +68,7 @@ CHECKS = {
     },
     "C16": {
         "level": "exploration",
+        "termination_clauses": {"c16-retry-queue-reentrancy": ["emit-returns"]},
         "groups": [
             {"name": "c16", "run": "^TestC16_", "variant": "race", "shards": {"quick": 12, "thorough": 24},
              "timeout": {"quick": 900, "thorough": 5400},
@@ -80,6 +81,9 @@ CHECKS = {
             {"name": "c16up", "run": "^TestC07_Upgrade$", "shards": {"quick": 8, "thorough": 16},
              "timeout": {"quick": 900, "thorough": 3000}, "env": {"VERIF_AS": "C16"},
              "checks": ["c16-send-during-upgrade"]},
+            {"name": "c16rq", "run": "^TestC15_RetryQueue$", "shards": {"quick": 8, "thorough": 16},
+             "timeout": {"quick": 900, "thorough": 3000}, "env": {"VERIF_AS": "C16"},
+             "checks": ["c16-retry-queue-reentrancy"]},
         ],
     },
     "C17": {
